@@ -604,7 +604,12 @@ func (env *Env) evalInstr(in ssa.Instruction, get func(ssa.Value) Val, st *State
 			}
 			f := env.uf("str_sub", []string{"Str", "Int", "Int"}, "Str")
 			e.declPre("str_sub_ax", "(assert (forall ((s Str) (a Int) (b Int)) (! (=> (and (<= 0 a) (<= a b) (<= b (str_len s))) (= (str_len (str_sub s a b)) (- b a))) :pattern ((str_sub s a b)))))\n(assert (forall ((s Str) (a Int) (b Int) (i Int)) (! (=> (and (<= 0 a) (<= a b) (<= b (str_len s)) (<= 0 i) (< i (- b a))) (= (str_at (str_sub s a b) i) (str_at s (+ a i)))) :pattern ((str_at (str_sub s a b) i)))))")
-			return Val{T: fmt.Sprintf("(%s %s %s %s)", f, x.T, lo, hi), S: "Str"}, true
+			sub := fmt.Sprintf("(%s %s %s %s)", f, x.T, lo, hi)
+			if !env.quant {
+				// ground instance of the length axiom (kept when quantified facts are dropped for model finding)
+				env.fact(fmt.Sprintf("(=> (and (<= 0 %s) (<= %s %s) (<= %s (str_len %s))) (= (str_len %s) (- %s %s)))", lo, lo, hi, hi, x.T, sub, hi, lo))
+			}
+			return Val{T: sub, S: "Str"}, true
 		}
 		if x.Loc != nil && x.Loc.Kind == LArr {
 			at := deref(in.X.Type()).Underlying().(*types.Array)
